@@ -160,3 +160,6 @@ def run(prog: Program, rep: Report, tier: str = "quick") -> None:
     rep.floor("R5.1", n)
     rep.floor("R5.2", 2 * n)
     rep.floor("R5.3", 6 * n)
+    from . import game
+
+    game.add_instances(rep, game.c05_job, [(i, tier) for i in range(n)], "R5.4", 14 * n)
